@@ -33,8 +33,8 @@ func wtop() WTop   { m := wmid(); return WTop{Mid: wmid(), PMid: &m, S: "abc"} }
 type WG struct {
 	X string `valid:"either=1"`
 	Y string `valid:"either=1"`
-	A int    `valid:"botheq=2"`
-	B int    `valid:"botheq=2"`
+	A int    `valid:"botheq=1"`
+	B int    `valid:"botheq=1"`
 }
 type WGS struct {
 	L []WG          `valid:"exist"`
